@@ -68,7 +68,7 @@ CHECKS = {
     floors={'C11.atan2': {'axis': 0.05, '|log2|y/x||>13': 0.3}}),
  'C12': dict(
     rule="every raw x in [-1, 1] under both square-root algorithms, plus generated x outside; non-trivial = |x| > 0.6, |x| > 0.99, at the switch, just outside or huge",
-    clauses=[sweep('C12.in'), rc('C12.out', 6000000, 160000000)], floors={}),
+    clauses=[sweep('C12.in'), rc('C12.inrc', 400000, 20000000), rc('C12.out', 6000000, 160000000)], floors={}),
  'C13': dict(
     rule="sqrt through sqrt(), detail::sqrt_abacus and detail::sqrt_std_math: exhaustive low range, lattice per bit length to 47, perfect squares, generated negatives; integer-only oracle; non-trivial = raw >= 2^22, top binade, negative",
     clauses=[sweep('C13.sqrt'), rc('C13.sqrtrc', 10000000, 240000000)], floors={'C13.sqrtrc': {'top-binade[2^46,2^47)': 0.01, 'negative': 0.05}}),
@@ -175,12 +175,12 @@ def ce_engine(env, gen='c08', clause='C08.diff', cid='C08.ce', n=None):
         accepted_per_configuration=per_cfg, emit_stats=stats,
         samples=[dict(entry=c[0], args=list(c[1:4]), runtime_value=c[4]) for c in (list(nt)[:3] + cases[:3])])
     return res
-CET_CLAUSES = ['C01.addsub', 'C02.mulff', 'C02.mulint', 'C03.divff', 'C03.divint', 'C16.int', 'C18.shift', 'C15.floorceil', 'C14.hypot', 'C11.atan2', 'C13.sqrtrc', 'C04.toint', 'C04.fromint', 'C10.rel', 'C09.period']
+CET_CLAUSES = ['C12.inrc', 'C01.addsub', 'C02.mulff', 'C02.mulint', 'C03.divff', 'C03.divint', 'C16.int', 'C18.shift', 'C15.floorceil', 'C14.hypot', 'C11.atan2', 'C13.sqrtrc', 'C04.toint', 'C04.fromint', 'C10.rel', 'C09.period']
 def cet_engine(env):
     # targeted constant evaluation: the same E4 machinery, driven by each property clause's own generator
     out = dict(violations=[], errors=[], known_hits={}); tot = 0; dn = 0; per = {}; samples = []
     for cl in CET_CLAUSES:
-        r = ce_engine(env, gen='clause', clause=cl, cid='C08.cet', n=(1500 if env['tier'] == 'quick' else 12000))
+        r = ce_engine(env, gen='clause', clause=cl, cid='C08.cet', n=(800 if env['tier'] == 'quick' else 12000))
         out['violations'] += r.get('violations', [])[:1]; out['errors'] += r.get('errors', [])
         e = r.get('evidence') or {}; tot += e.get('evaluations', 0); dn += e.get('distinct_nontrivial', 0); per[cl] = e.get('evaluations', 0); samples += e.get('samples', [])[:1]
         if len(out['violations']) >= 3: break
@@ -201,7 +201,7 @@ def make_prop_cet(clauses):
             rule='cases from the generators of %s compiled as static_assert(ce_<entry>(args) == run-time value) with GCC and Clang in c++17+abacus / c++20 / c++2b: the run-time value is judged by the exact oracle of the clause, the compile-time value must equal it' % ', '.join(clauses), samples=samples)
         return out
     return engine
-for _p, _cl in {'C01': ['C01.addsub'], 'C02': ['C02.mulff', 'C02.mulint'], 'C03': ['C03.divff', 'C03.divint'], 'C04': ['C04.toint', 'C04.fromint'], 'C11': ['C11.atan2'], 'C13': ['C13.sqrtrc'], 'C14': ['C14.hypot'], 'C15': ['C15.floorceil'], 'C16': ['C16.int'], 'C18': ['C18.shift']}.items():
+for _p, _cl in {'C01': ['C01.addsub'], 'C02': ['C02.mulff', 'C02.mulint'], 'C03': ['C03.divff', 'C03.divint'], 'C04': ['C04.toint', 'C04.fromint'], 'C11': ['C11.atan2'], 'C13': ['C13.sqrtrc'], 'C14': ['C14.hypot'], 'C15': ['C15.floorceil'], 'C16': ['C16.int'], 'C18': ['C18.shift'], 'C12': ['C12.inrc'], 'C10': ['C10.rel'], 'C09': ['C09.period']}.items():
     CHECKS[_p].setdefault('extra', []).append(make_prop_cet(_cl))
 CHECKS['C07'].setdefault('extra', []).append(lambda env: ce_engine(env, gen='c07', clause='C07.entry', cid='C07.ce'))
 
